@@ -1,35 +1,56 @@
 package ev
 
-import "time"
+import (
+	"fmt"
+	"runtime/debug"
+	"time"
+)
 
-// Watchdog runs f and reports non-termination as a budget violation. The calls it guards
-// normally take micro- to milliseconds. A wall clock alone cannot tell a loop from a starved
-// process (on a machine loaded several times over, a call may simply be waiting for its turn),
-// so after a 2 s grace period a sibling goroutine of the same process does fixed units of busy
-// work, and f is declared non-terminating only once that sibling has been granted about 10 s
-// worth of CPU (the Go scheduler shares the process's CPU between the two about equally).
-// A panic inside f is re-raised on the caller's goroutine. If f does not terminate its goroutine
-// is abandoned (it keeps a core busy until the test binary exits).
-func Watchdog(what string, f func()) {
-	done := make(chan interface{}, 1)
+// A library call that never returns must show up as a violation of the property (every
+// statement implies that the function returns), not as a test binary killed by its deadline
+// with nothing to report. A wall clock alone cannot tell a loop from a starved process (on a
+// machine loaded several times over a call may simply be waiting for its turn), so after a
+// grace period a sibling goroutine of the same process does fixed units of busy work, and the
+// guarded code is declared non-terminating only once that sibling has been granted the given
+// amount of CPU (the Go scheduler shares the process's CPU between the goroutines about
+// equally, so the guarded code has had at least as much). The abandoned goroutine keeps a core
+// busy until the test binary exits.
+
+type panicked struct {
+	val   interface{}
+	stack string
+}
+
+// hangs runs f on a goroutine of its own and waits for it; it reports true if f has not
+// returned after the grace period plus cpuSeconds of CPU granted to a sibling. A panic inside f
+// is returned (with the stack of the panicking goroutine).
+func hangs(f func(), grace time.Duration, cpuSeconds int) (hung bool, p *panicked) {
+	done := make(chan *panicked, 1)
 	go func() {
-		defer func() { done <- recover() }()
+		defer func() {
+			if r := recover(); r != nil {
+				st := string(debug.Stack())
+				if len(st) > 1500 {
+					st = st[:1500]
+				}
+				done <- &panicked{r, st}
+				return
+			}
+			done <- nil
+		}()
 		f()
 	}()
 	select {
-	case r := <-done:
-		if r != nil {
-			panic(r)
-		}
-		return
-	case <-time.After(2 * time.Second):
+	case p := <-done:
+		return false, p
+	case <-time.After(grace):
 	}
 	stop := make(chan struct{})
 	granted := make(chan struct{}, 1)
 	go func() {
-		const unitsNeeded = 400 // x ~25 ms of busy work
+		units := cpuSeconds * 40 // one unit is about 25 ms of busy work
 		x := uint64(88172645463325252)
-		for u := 0; u < unitsNeeded; u++ {
+		for u := 0; u < units; u++ {
 			for i := 0; i < 12_000_000; i++ {
 				x ^= x << 13
 				x ^= x >> 7
@@ -45,14 +66,43 @@ func Watchdog(what string, f func()) {
 		granted <- struct{}{}
 	}()
 	select {
-	case r := <-done:
+	case p := <-done:
 		close(stop)
-		if r != nil {
-			panic(r)
-		}
+		return false, p
 	case <-granted:
-		BudgetPanic(what + " did not return although a sibling goroutine was granted 10 s of CPU meanwhile")
+		return true, nil
 	}
 }
 
 var watchdogSink uint64
+
+// Watchdog runs f (a library call that normally takes micro- to milliseconds) and reports
+// non-termination as a budget violation after a 2 s grace period plus 10 s of CPU granted to a
+// sibling. A panic inside f is re-raised on the caller's goroutine.
+func Watchdog(what string, f func()) {
+	hung, p := hangs(f, 2*time.Second, 10)
+	if p != nil {
+		panic(p.val)
+	}
+	if hung {
+		BudgetPanic(what + " did not return although a sibling goroutine was granted 10 s of CPU meanwhile")
+	}
+}
+
+// caseCPUSeconds is the CPU a sibling must have been granted before a whole case (one
+// evaluation of a check: reference computations plus all library calls) is declared hung. The
+// slowest legitimate cases take seconds; this is two orders of magnitude above them.
+const caseCPUSeconds = 120
+
+func hungCase() Outcome {
+	return Fail("step budget exceeded (non-termination suspected): the case did not finish although a sibling goroutine was granted %d s of CPU after a 5 s grace period (a library call does not return)", caseCPUSeconds)
+}
+
+func panicOutcome(p *panicked) Outcome {
+	if b, ok := p.val.(budgetExceeded); ok {
+		return Fail("step budget exceeded (non-termination suspected): %s", string(b))
+	}
+	return Fail("panic: %v\n%s", p.val, p.stack)
+}
+
+var _ = fmt.Sprint
